@@ -159,6 +159,14 @@ func TestC06RefusedChangesNothing(t *testing.T) {
 			// requests travel over the client's connection when sent as JSON-RPC
 			before := s.digest()
 			err := f.submit(r, sig, vid, forgedNonce, arg, viaRPC)
+			// an attacker does not stop at one: the same refused request again and again (any number of refusals
+			// leaves as little trace as one)
+			burst := rapid.SampledFrom([]int{0, 0, 0, 1, 4, 5, 7, 12}).Draw(rt, "moreRefusals")
+			for k := 0; k < burst && classifyErr(err).Kind == "verify"; k++ {
+				if e2 := f.submit(r, sig, vid, forgedNonce, arg, viaRPC); classifyErr(e2).Kind != "verify" {
+					rt.Fatalf("%s with refusal kind %q against %s was refused once and then not refused when sent again (attempt %d): %v", method, kind, victim.name, k+2, e2)
+				}
+			}
 			after := s.digest()
 			if kind == "farahead" && classifyErr(err).Kind != "verify" {
 				// honoured (or failed for a reason other than authentication): not a refused request, nothing to check here
